@@ -340,6 +340,34 @@ def swarm_config(rng, tier, prop):
     return cfg
 
 
+def place_intents(rng, ops, kinds, rate):
+    """Fault intents: which operations get a fault, and an ordered preference of fault kinds; the kind actually
+    injected is the first one the operation offers a site for (known from the fault-free profile).  Biased towards
+    the first evaluation after a construction, where lazily initialised state is being built."""
+    cand = [k for k in kinds if k in ("dep", "abort", "devnull")]
+    intents = []
+    if not cand or rate <= 0:
+        return intents
+    called = set()
+    for i, op in enumerate(ops):
+        if op["op"] not in ("new", "call", "cfg") or op.get("expect"):
+            continue
+        r = rate
+        if op["op"] == "call" and op["obj"] not in called:
+            r = min(1.0, 2.5 * rate)
+        if op["op"] == "call":
+            called.add(op["obj"])
+        if rng.random() < r:
+            order = list(cand)
+            rng.shuffle(order)
+            if "dep" in order and rng.random() < 0.6:      # a dependency failure where the operation offers one
+                order.remove("dep")
+                order.insert(0, "dep")
+            intents.append({"step": i, "kinds": order, "u": fhex(rng.random()), "mode": rng.choice(["before", "before", "after"]),
+                            "exc": rng.choice(["RuntimeError", "ValueError"])})
+    return intents
+
+
 def pick_families(rng, fams, n, prop):
     ws = [f.weight for f in fams]
     chosen = []
@@ -371,17 +399,7 @@ def make_run(seed, tier, index, prop="C06"):
         run["alloc"] = fhex(rng.choice(ALLOC_PATTERNS[1:]))
     if "nofile" in kinds:
         run["nofile_extra"] = rng.randint(3, 8)
-    intents = []
-    for i, op in enumerate(g.ops):
-        if op["op"] not in ("new", "call", "cfg"):
-            continue
-        if rng.random() < cfg["fault_rate"]:
-            cand = [k for k in kinds if k in ("dep", "abort", "devnull")]
-            if not cand:
-                continue
-            k = rng.choice(cand)
-            intents.append({"step": i, "kind": k, "u": fhex(rng.random()), "mode": rng.choice(["before", "before", "after"]),
-                            "exc": rng.choice(["RuntimeError", "ValueError"])})
+    intents = place_intents(rng, g.ops, kinds, cfg["fault_rate"])
     spec = {"seed": seed, "tier": tier, "index": index, "prop": prop, "kind": "swarm",
             "config": {k: v for k, v in cfg.items() if k != "n_choices"},
             "families": [f.name for f in chosen], "run": run, "ops": g.ops, "intents": intents, "faults": []}
@@ -440,7 +458,7 @@ def make_cornerstone(seed, tier, k, prop="C06"):
         pa, ta, la = g.request_points(a)
         first = g.call_op(0, a, pa, ta, la)
         if variant == "a_aborted":
-            intents.append({"step": len(g.ops) - 1, "kind": "abort", "u": fhex(rng.random()), "mode": "before", "exc": "RuntimeError"})
+            intents.append({"step": len(g.ops) - 1, "kinds": ["abort"], "u": fhex(rng.random()), "mode": "before", "exc": "RuntimeError"})
     if b is not None and b.alive:
         pb, tb, lb = g.request_points(b)
         g.call_op(1, b, pb, tb, lb)
@@ -470,24 +488,31 @@ def _qual_for(fam, pi):
 
 
 def resolve_faults(spec, profile):
-    """Turn fault intents into explicit faults using the fault-free profile (seam calls / line events per step)."""
+    """Turn fault intents into explicit faults using the fault-free profile (seam calls / line events /
+    devnull opens per step): the first kind in the intent's preference order that has a site in that operation."""
     faults = []
     for it in spec.get("intents", []):
         i = it["step"]
         rec = profile[i]
         u = float.fromhex(it["u"])
-        if it["kind"] == "dep":
-            n = rec.get("deps", 0)
-            if n <= 0:
-                continue
-            faults.append({"step": i, "kind": "dep", "k": 1 + int(u * n) if n > 1 else 1, "mode": it["mode"], "exc": it["exc"]})
-        elif it["kind"] == "abort":
-            n = rec.get("lines", 0)
-            if n <= 0:
-                continue
-            faults.append({"step": i, "kind": "abort", "line": 1 + int(u * n)})
-        elif it["kind"] == "devnull":
-            faults.append({"step": i, "kind": "devnull"})
+        for kind in it.get("kinds") or [it.get("kind")]:
+            if kind == "dep":
+                n = rec.get("deps", 0)
+                if n <= 0:
+                    continue
+                faults.append({"step": i, "kind": "dep", "k": 1 + int(u * n) if n > 1 else 1, "mode": it["mode"], "exc": it["exc"]})
+                break
+            if kind == "abort":
+                n = rec.get("lines", 0)
+                if n <= 0:
+                    continue
+                faults.append({"step": i, "kind": "abort", "line": 1 + int(u * n)})
+                break
+            if kind == "devnull":
+                if rec.get("devnull_opens", 0) <= 0:
+                    continue
+                faults.append({"step": i, "kind": "devnull"})
+                break
     return faults
 
 
@@ -657,15 +682,7 @@ def make_c05_run(seed, tier, index):
         run["alloc"] = fhex(rng.choice(ALLOC_PATTERNS[1:]))
     if "nofile" in kinds:
         run["nofile_extra"] = rng.randint(3, 8)
-    intents = []
-    for i, op in enumerate(g.ops):
-        if op["op"] not in ("new", "call", "cfg") or op.get("expect"):
-            continue
-        if rng.random() < cfg["fault_rate"] * 0.5:
-            cand = [k for k in kinds if k in ("dep", "abort", "devnull")]
-            if cand:
-                intents.append({"step": i, "kind": rng.choice(cand), "u": fhex(rng.random()), "mode": rng.choice(["before", "after"]),
-                                "exc": rng.choice(["RuntimeError", "ValueError"])})
+    intents = place_intents(rng, g.ops, kinds, cfg["fault_rate"] * 0.5)
     return {"seed": seed, "tier": tier, "index": index, "prop": "C05", "kind": "swarm",
             "config": {k: v for k, v in cfg.items() if k != "n_choices"}, "families": [f.name for f in chosen],
             "visits": visits, "run": run, "ops": g.ops, "intents": intents, "faults": []}
